@@ -36,6 +36,7 @@ type VerifyFunc struct {
 	usedLoops map[int]bool
 	returns   int
 	entryFrontier string
+	ownEval bool // the clause being evaluated belongs to the function under verification
 }
 
 type funcInfo struct {
@@ -1256,4 +1257,31 @@ func (vf *VerifyFunc) doReturn(st *State, fr *Frame, rs []*Val, in ssa.Instructi
 	}
 	vf.checkPost(st, fr, rs, in)
 	return false
+}
+
+var localTypesCache = map[*ssa.Function]map[string]types.Type{}
+
+// localType: type of the source-level local `name` of fn (from its debug references), nil if there is none.
+func (e *Engine) localType(fn *ssa.Function, name string) types.Type {
+	e.mu.Lock()
+	defer e.mu.Unlock()
+	m, ok := localTypesCache[fn]
+	if !ok {
+		m = map[string]types.Type{}
+		for _, b := range fn.Blocks {
+			for _, in := range b.Instrs {
+				if d, ok := in.(*ssa.DebugRef); ok {
+					if obj := d.Object(); obj != nil {
+						if _, isVar := obj.(*types.Var); isVar && obj.Name() != "_" {
+							if _, seen := m[obj.Name()]; !seen {
+								m[obj.Name()] = obj.Type()
+							}
+						}
+					}
+				}
+			}
+		}
+		localTypesCache[fn] = m
+	}
+	return m[name]
 }
